@@ -25,20 +25,40 @@ def _run(case):
 
     class S(ActionScheduler):
         def default_action(self, obj, time, st):
+            if self.current_state != st:
+                raise Violation('C18.state', f'during the action for state {st!r} at {env.now} current_state is '
+                                f'{self.current_state!r}')
             log.append(('d', obj, time, st, env.now))
 
-    sch = S(tt, 'sch') if cyc is None else S(tt, 'sch', is_cyclical=cyc)
+    t0 = case.get('late') or 0
+    box = {}
+
+    def make():
+        box['sch'] = S(tt, 'sch') if case['cyclical'] is None else S(tt, 'sch', is_cyclical=case['cyclical'])
+    if t0:
+        # the scheduler is created while the simulation is running: its timetable starts then
+        env.schedule_event(t0, -4, make, 13)
+    else:
+        make()
     if cyc is None:
         cyc = True      # documented default
 
     def over(sc, obj, time, st):
-        if sc is not sch:
+        if sc is not box['sch']:
             raise Violation('C18.args', f'override action got {sc!r} instead of the scheduler')
+        if sc.current_state != st:
+            raise Violation('C18.state', f'during the action for state {st!r} at {env.now} current_state is '
+                            f'{sc.current_state!r}')
         log.append(('o', obj, time, st, env.now))
+
+    class Proxy:
+        def __getattr__(self, name):
+            return getattr(box['sch'], name)
+    sch = Proxy()
 
     reg = []
     rets = []
-    for (o, ov) in case['pre']:
+    for (o, ov) in (case['pre'] if not t0 else []):
         r = sch.register_object(o, over if ov else None)
         exp = o not in [x for x, _ in reg]
         if r != exp:
@@ -56,14 +76,14 @@ def _run(case):
     samples = []
     k = 0
     while 0.25 * k <= T:
-        env.schedule_event(0.25 * k, -5, lambda: samples.append((env.now, sch.current_state)), 1.5)
+        env.schedule_event(0.25 * k, -5, lambda: samples.append((env.now, sch.current_state if 'sch' in box else None)), 1.5)
         k += 1
     for h in case['T']:
         s.simulate(h, print_summary=False)
 
     # ---- reference timetable: state i begins at the sum of the durations before it
     bounds = []
-    t = 0
+    t = t0
     i = 0
     while t <= T:
         bounds.append((t, tt[i][1]))
@@ -93,6 +113,9 @@ def _run(case):
     # the start-up invocation happens during initialisation, before any event of time 0
     evs = [(b[0], -BOUNDARY_PRIO if j else -float('inf'), j, 'b', b[1]) for j, b in enumerate(bounds)] + \
           [(t, -prio, 0, k, (o, ov)) for (t, prio, k, o, ov) in case['timed'] if t <= T]
+    if t0:
+        # start-up of a late-created scheduler happens inside its constructor (priority-13 event at t0)
+        evs = [(e[0], -13, e[2], e[3], e[4]) if (e[3] == 'b' and e[2] == 0) else e for e in evs]
     regm = list(reg)
     exp_rets = []
     for e in sorted(evs, key=lambda e: (e[0], e[1], e[2])):
